@@ -1018,6 +1018,7 @@ func runC09(r *harness.Run) {
 	r.Extra["narrow_phase_menu_size"] = len(narrow)
 	r.Extra["narrow_phase_max_depth_completed"] = narrowDone
 	c09Bulk(c, workers[0])
+	runPinned(r, "C09")
 	r.Extra["states"] = states
 	r.Extra["transitions"] = transitions
 	r.Extra["traces_validated_against_impl"] = transitions
